@@ -22,22 +22,22 @@ type Exec struct {
 	T    *testing.T
 	Tier string
 
-	mu         sync.Mutex
-	Violations []Violation
-	Faults     map[string]int
-	Probes     map[string]int
-	Trouble    []string // harness trouble, never a violation
-	events     int
-	logHash    uint64
-	trace      []string
-	keepTrace  bool
-	simNanos   int64
-	bubbles    int
-	steps      int
+	mu          sync.Mutex
+	Violations  []Violation
+	Faults      map[string]int
+	Probes      map[string]int
+	Trouble     []string // harness trouble, never a violation
+	events      int
+	logHash     uint64
+	trace       []string
+	keepTrace   bool
+	simNanos    int64
+	bubbles     int
+	steps       int
 	interleaved int
-	maxParked  int
-	saltStr    string
-	Sample     any
+	maxParked   int
+	saltStr     string
+	Sample      any
 	// Nontrivial is set by the world when the run exercised what the property is about; the kit
 	// additionally requires a non-empty event log.
 	Nontrivial bool
@@ -154,9 +154,9 @@ func (x *Exec) logEvent(at time.Duration, e string) {
 func (x *Exec) Event(format string, args ...any) { x.logEvent(0, fmt.Sprintf(format, args...)) }
 
 // Draw helpers.
-func (x *Exec) Draw(label string, n int) int          { return x.Tape.Draw(label, n) }
-func (x *Exec) Range(label string, lo, hi int) int    { return x.Tape.Range(label, lo, hi) }
-func (x *Exec) Bool(label string, num, den int) bool  { return x.Tape.Bool(label, num, den) }
+func (x *Exec) Draw(label string, n int) int         { return x.Tape.Draw(label, n) }
+func (x *Exec) Range(label string, lo, hi int) int   { return x.Tape.Range(label, lo, hi) }
+func (x *Exec) Bool(label string, num, den int) bool { return x.Tape.Bool(label, num, den) }
 
 // TempDir returns a scratch directory for this run (removed when the run ends).
 func (x *Exec) TempDir() string {
@@ -187,9 +187,17 @@ func (x *Exec) Bubble(salt string, fn func(s *Sim)) {
 	x.saltStr = salt
 	x.bubbles++
 	var s *Sim
+	completed := false
 	func() {
 		defer func() {
 			if r := recover(); r != nil {
+				// Goroutines that the system under test leaks on error paths (blocked forever on a
+				// channel nobody closes) make synctest report a deadlock when the bubble ends. When
+				// the world function itself returned normally that is not the harness's trouble.
+				if completed && strings.Contains(fmt.Sprint(r), "blocked goroutines remain") {
+					x.Probe("kit.sut_goroutines_left_blocked_at_bubble_end")
+					return
+				}
 				x.Troublef("bubble %q ended abnormally: %v", salt, r)
 			}
 		}()
@@ -203,6 +211,7 @@ func (x *Exec) Bubble(salt string, fn func(s *Sim)) {
 				}
 			}()
 			fn(s)
+			completed = true
 		})
 	}()
 }
